@@ -14,6 +14,8 @@ CONSTANTS
   MaxOld = 2
   Transports <- TrIP
   ScmpTypes <- ScmpNone
+  HdrStates <- HdrSync
+  HdrPct = 0
   Exhaustive = FALSE
   Biases <- BiasLow
   TickPct = 35
